@@ -96,6 +96,42 @@ func valueParam(v ssa.Value) *ssa.Parameter {
 	return par
 }
 
+// paramInExpr: v is an expression over a parameter (an operand of a binary
+// operation or an argument of a call, directly or nested) without being the
+// parameter itself.
+func paramInExpr(v ssa.Value, depth int) *ssa.Parameter {
+	if depth > 4 {
+		return nil
+	}
+	v = core.Strip(v)
+	switch x := v.(type) {
+	case *ssa.BinOp:
+		for _, o := range []ssa.Value{x.X, x.Y} {
+			if p := valueParam(o); p != nil {
+				return p
+			}
+			if p := paramInExpr(o, depth+1); p != nil {
+				return p
+			}
+		}
+	case *ssa.Call:
+		for _, o := range x.Call.Args {
+			if p := valueParam(o); p != nil {
+				return p
+			}
+			if p := paramInExpr(o, depth+1); p != nil {
+				return p
+			}
+		}
+	case *ssa.Convert:
+		if p := valueParam(x.X); p != nil {
+			return p
+		}
+		return paramInExpr(x.X, depth+1)
+	}
+	return nil
+}
+
 func outermost(fn *ssa.Function) *ssa.Function {
 	for fn.Parent() != nil {
 		fn = fn.Parent()
@@ -157,7 +193,7 @@ func configPlumbing(c *core.Ctx, pkgS string, want func(st *types.Named, f *type
 			fa *ssa.FieldAddr
 			fn *ssa.Function
 		}
-		var setters, defaults []st
+		var setters, defaults, transformed []st
 		reads := 0
 		for _, fn := range libs {
 			core.Instrs(fn, func(in ssa.Instruction) {
@@ -166,6 +202,8 @@ func configPlumbing(c *core.Ctx, pkgS string, want func(st *types.Named, f *type
 					if fa, ok := isFieldAddrOf(x.Addr, f); ok {
 						if valueParam(x.Val) != nil {
 							setters = append(setters, st{x, fa, fn})
+						} else if par := paramInExpr(x.Val, 0); par != nil {
+							transformed = append(transformed, st{x, fa, fn})
 						} else {
 							defaults = append(defaults, st{x, fa, fn})
 						}
@@ -183,6 +221,9 @@ func configPlumbing(c *core.Ctx, pkgS string, want func(st *types.Named, f *type
 					}
 				}
 			})
+		}
+		for _, t := range transformed {
+			c.Fail(core.FuncName(outermost(t.fn))+":"+f.name+":setter", t.s.Pos(), "%s: what is stored is computed from the parameter (concatenation, conversion through a call), not the caller's value itself: the configured value is altered on its way in", f.key())
 		}
 		nonConstDefaults := 0
 		for _, d := range defaults {
